@@ -71,6 +71,8 @@ ood!(air_ood_lagrange_trailing_bounded, 17, 10, 8, 1, 1, 1);
 ood!(air_ood_eval_trailing_bounded, 17, 1, 9, 1, 0, 1);
 ood!(air_ood_empty_components_bounded, 0, 0, 0, 1, 0, 1);
 ood!(air_ood_two_columns_bounded, 33, 1, 16, 1, 1, 2);
+// a trace-state vector that holds 4 elements for a 1-column trace: a frame-size byte of 4 (rows twice as wide as the trace) must be refused
+ood!(air_ood_wide_rows_bounded, 33, 1, 8, 1, 0, 1);
 
 /// Table::from_bytes for every admissible shape (1..=255 rows and columns, as many as ProofOptions and
 /// TraceInfo allow) on a short byte string: never panics; Err because the bytes run out
